@@ -338,13 +338,15 @@ pub struct Worker {
     pub id: usize,
     pub py: Option<crate::py::PyWorker>,
     pub scratch: PathBuf,
+    /// generate through the real binary instead of in-process (FactCheck CLI families)
+    pub via_cli: bool,
 }
 impl Worker {
     pub fn new(prop: &str, id: usize) -> Worker {
         let scratch = PathBuf::from(format!("{VERIF}/work/{}-{}-{}", prop, std::process::id(), id));
         let _ = std::fs::remove_dir_all(&scratch);
         std::fs::create_dir_all(&scratch).expect("scratch");
-        Worker { id, py: None, scratch }
+        Worker { id, py: None, scratch, via_cli: false }
     }
     pub fn py(&mut self) -> &mut crate::py::PyWorker {
         if self.py.is_none() {
